@@ -278,8 +278,11 @@ Definition post_ok (s : sampler) (th : list (list Q)) : Prop :=
   Forall prob_vec th /\
   ((training s = false \/ (hard s = true /\ gumbel s = false)) -> th = argmax_onehots (alpha s)) /\
   (hard s = true -> Forall is_onehot th).
-(* the sub-domain on which the faithful model of the unchanged code meets the property *)
-Definition covered (c : cfg) (k : kind) : Prop := k = KMps \/ comb_eval_argmax c = true.
+(* the sub-domain on which the faithful model of the unchanged code meets the property: everything except
+   (open findings) the SuperNet combiner of the pinned code in eval mode with soft selection, and
+   disable_sampling (guard `disabled s = false`, stated separately) *)
+Definition covered (c : cfg) (k : kind) (s : sampler) : Prop :=
+  k = KMps \/ comb_eval_argmax c = true \/ training s = true \/ hard s = true.
 
 Lemma map_ste_softmax T al : 0 < T -> Forall col_ok al ->
   map ste (map (softmax g T) al) = argmax_onehots al.
@@ -305,7 +308,7 @@ Proof.
 Qed.
 
 (* one forward pass *)
-Lemma forward_post_ok c k s noise : covered c k -> wf s -> disabled s = false ->
+Lemma forward_post_ok c k s noise : covered c k s -> wf s -> disabled s = false ->
   post_ok s (sample g c k s noise).
 Proof.
   intros Hc [HT Ha] Hd. unfold sample. rewrite Hd.
@@ -319,7 +322,7 @@ Proof.
     - apply orb_false_iff in Eh. destruct Eh as [Eh1 Eh2]. unfold post_ok. split; [|split].
       + apply softmax_cols_prob, Ha.
       + intros [Htr|[Hh _]]; [|congruence]. exfalso. unfold eval_argmax in Eh2.
-        destruct Hc as [Hk|Hfix]; [subst k; rewrite Htr in Eh2; discriminate|].
+        destruct Hc as [Hk|[Hfix|[Ht|Hh]]]; [subst k; rewrite Htr in Eh2; discriminate| |congruence|congruence].
         destruct k; rewrite Htr in Eh2; [discriminate|]. rewrite Hfix in Eh2. discriminate.
       + intro; congruence. }
   destruct (gumbel s) eqn:Eg; [|apply PSM; auto].
@@ -342,27 +345,27 @@ Fixpoint all_forwards_ok (c : cfg) (k : kind) (s : sampler) (ops : list sop) : P
       | None => True
       | Some s' =>
           match o with
-          | SForward _ => disabled s = false -> post_ok s (theta s')
+          | SForward _ => disabled s = false -> covered c k s -> post_ok s (theta s')
           | _ => True
           end /\ all_forwards_ok c k s' r
       end
   end.
 
-Theorem invariant_all_sequences c k : covered c k -> forall ops s, wf s -> Forall wf_op ops ->
+Theorem invariant_all_sequences c k : forall ops s, wf s -> Forall wf_op ops ->
   all_forwards_ok c k s ops.
 Proof.
-  intro Hc. induction ops as [|o r IH]; intros s Hs Ho; cbn [all_forwards_ok]; [exact I|].
+  induction ops as [|o r IH]; intros s Hs Ho; cbn [all_forwards_ok]; [exact I|].
   inversion Ho; subst. destruct (step g c k s o) as [s'|] eqn:E; [|exact I]. split.
-  - destruct o; try exact I. intro Hd. cbn [step] in E. inversion E; subst. cbn [set_theta theta].
+  - destruct o; try exact I. intros Hd Hc. cbn [step] in E. inversion E; subst. cbn [set_theta theta].
     now apply forward_post_ok.
   - apply IH; [eapply step_wf; eauto|assumption].
 Qed.
 
-Corollary invariant_after_run c k ops s s1 noise s2 : covered c k -> wf s -> Forall wf_op ops ->
+Corollary invariant_after_run c k ops s s1 noise s2 : wf s -> Forall wf_op ops ->
   run g c k s ops = Some s1 -> step g c k s1 (SForward noise) = Some s2 -> disabled s1 = false ->
-  post_ok s1 (theta s2).
+  covered c k s1 -> post_ok s1 (theta s2).
 Proof.
-  intros Hc Hs Ho E1 E2 Hd. cbn [step] in E2. inversion E2; subst. cbn [set_theta theta].
+  intros Hs Ho E1 E2 Hd Hc. cbn [step] in E2. inversion E2; subst. cbn [set_theta theta].
   apply forward_post_ok; auto. eapply run_wf; eauto.
 Qed.
 
@@ -378,11 +381,11 @@ Qed.
 (* selection used by summary()/export() against the evaluated coefficients: whenever no Gumbel noise is
    involved the largest evaluated coefficient of every decision sits at the alternative that
    selected_*_precision / best_layer_index pick; in eval / hard mode it is the only non-zero one *)
-Theorem selected_is_argmax c k s noise : covered c k -> wf s -> disabled s = false ->
+Theorem selected_is_argmax c k s noise : wf s -> disabled s = false ->
   (gumbel s = false \/ training s = false) ->
   map argmax (sample g c k s noise) = selected (alpha s).
 Proof.
-  intros Hc [HT Ha] Hd Hm. unfold sample. rewrite Hd.
+  intros [HT Ha] Hd Hm. unfold sample. rewrite Hd.
   assert (PSM : map argmax (sample_sm g c k s) = selected (alpha s)).
   { unfold sample_sm, selected. cbv zeta. destruct (hard s || eval_argmax c k s)%bool.
     - rewrite map_ste_softmax by assumption. unfold argmax_onehots. rewrite map_map. apply map_ext_in.
@@ -394,7 +397,7 @@ Proof.
   rewrite Hm. exact PSM.
 Qed.
 
-Theorem selected_onehot c k s noise : covered c k -> wf s -> disabled s = false ->
+Theorem selected_onehot c k s noise : covered c k s -> wf s -> disabled s = false ->
   (training s = false \/ (hard s = true /\ gumbel s = false)) ->
   sample g c k s noise = map (fun col => onehot (length col) (argmax col)) (alpha s) /\
   selected (alpha s) = map argmax (alpha s).
@@ -414,11 +417,11 @@ Qed.
 
 (* pinned upstream SuperNetCombiner: eval mode with soft selection evaluates a mixture *)
 Theorem comb_upstream_eval_soft_refuted : exists s noise,
-  wf s /\ disabled s = false /\ training s = false /\
+  wf s /\ disabled s = false /\ training s = false /\ hard s = false /\
   ~ post_ok s (sample g (mkCfg false false) KComb s noise).
 Proof.
   exists (mkS false false false 1 false [[1; 2]] [[1#2; 1#2]]), [].
-  split; [|split; [reflexivity|split; [reflexivity|]]].
+  split; [|split; [reflexivity|split; [reflexivity|split; [reflexivity|]]]].
   - split; cbn [temp alpha]; [reflexivity|]. repeat constructor; try discriminate; cbv; discriminate.
   - intros [_ [H _]]. specialize (H (or_introl eq_refl)).
     cbv [sample sample_sm disabled gumbel hard training eval_argmax comb_eval_argmax andb orb negb temp alpha map
